@@ -4,6 +4,8 @@ import time
 from vlib import report, scripth, shapes, refsem as R
 from checks import common
 
+N = R.Num
+
 PROP = 'C03'
 
 
@@ -29,6 +31,14 @@ def build_cases(tier, seed):
         if text not in seen:
             seen.add(text)
             cases.append(scripth.Case(p, specs=shapes.POPULATIONS['three'], tag='ret-loops-%d' % n, vm_steps=2500, ref_steps=900))
+    # a parameter that names a device hides a string constant of the same name where devices are addressed
+    for kind, (glob, arg) in (('light', ('A', 'B')), ('group', ('G1', 'G2')), ('location', ('L1', 'L2')), ('light', ('Z', 'Q'))):
+        tgt = lambda: [R.Operand(kind, R.Var('target'))]
+        body = [R.SetReg('hue', R.Var('n')), R.Action('set', tgt()), R.Repeat('count', [R.Action('on', tgt())], n=N(value=2)),
+                R.If(R.Bin('>', R.Var('n'), N(sid=2, kind='hue')), [R.Action('off', tgt())], [R.Print(R.Var('target'), ln=True)])]
+        stmts = [R.Define('target', R.Str(glob)), R.RoutineDef('f', ['target', 'n'], body), R.Call('f', [R.Str(arg), N(sid=1, kind='hue')]),
+                 R.Action('set', tgt())]
+        cases.append(scripth.Case(stmts, tag='device-param-%s-%s' % (kind, arg), vm_steps=1500, ref_steps=600))
     return cases
 
 
@@ -56,6 +66,9 @@ SCOPE_FORMS = [
     ('define inner with a begin assign t {a + 1} return t end define outer with a begin assign t 10 assign r [inner a] return {t + r} end print [outer 1]', [12]),
     # a constant defined after the routine, or anywhere, does not replace a parameter or local of that name at run time
     ('define f with lamp begin assign k 8 print k print lamp end define k 100 f "B"', [8, 'B']),
+    # a routine called for a later value of a printf prints its own parameter, and the caller's values stay the caller's
+    ('define g with p begin print p return 42 end assign v 20 printf "{} {} {}" v 7 [g 21]', [21, '20 7 42']),
+    ('define g with p begin println p return {p * 2} end define f with a begin printf "{}-{}" a [g {a + 1}] end f 5', [6, '\n', '5-12']),
 ]
 
 
